@@ -62,6 +62,7 @@ class LoopSpec:
     def __init__(self, n):
         self.n = n
         self.clauses = []     # Clause list in order
+        self.anchor = None    # text the loop head starts with (keeps the contract attached when loops before it come or go)
 
 
 class ProofBlock:
@@ -372,8 +373,12 @@ def parse_vspec(path, modules):
                 cur_fn.substs.append((m.group(1), m.group(2), m.group(3) or ''))
                 i += 1
             elif key == 'loop':
-                ln = int(rest.strip())
+                ml = re.match(r'(\d+)\s*(?:/(.*)/)?\s*$', rest.strip())
+                if not ml:
+                    err('bad loop header (loop N [/text of the loop head/])', i)
+                ln = int(ml.group(1))
                 lp = LoopSpec(ln)
+                lp.anchor = ml.group(2)
                 cur_fn.loops[ln] = lp
                 j = i + 1
                 while j < n:
